@@ -203,7 +203,13 @@ def gen_leaf(r: Rng):
     if k < 60:
         return ["k", r.choice([0, 1, 5, 255]), 8]
     if k < 70:
-        return ["kann", r.choice([0, 5]), 8, [gen_ann(r)]]
+        if r.chance(35):
+            # two annotations whose Python hashes are EQUAL although they are different annotations, given together
+            v = r.choice([1, 2, 3])
+            pair = r.choice([[["ConstHashAnn", v], ["ConstHashAnn", v % 3 + 1]], [["ContentAnn", v], ["TwinHashAnn", v]],
+                             [["ContentAnn", 0], ["ContentAnn", False]]])
+            return ["kann", r.choice([0, 5]), 8, pair if r.chance(50) else pair[::-1]]
+        return ["kann", r.choice([0, 5]), 8, [gen_ann(r) for _ in range(r.range(1, 2))]]
     if k < 76:
         return ["b", "p"]
     if k < 82:
